@@ -6,7 +6,7 @@ META = {
                    "two validating traversals by role (on-path set added on first visit and removed on post-visit; cycle report exactly on "
                    "`node in on-path`; push-time skip sets marked on post-visit only; on-path test before the visited test) (DFS1); every "
                    "dependency followed and missing tasks reported (DFS2); duplicate test on resolved identifiers (DUP1); root computation (ROOT1); each COND file's task table is an object of its own (LOAD1).",
-    "rules": ["RUN1", "DFS1", "DFS2", "DUP1", "ROOT1", "W1(do_traversal)", "LOAD1"],
+    "rules": ["RUN1", "DFS1", "DFS2", "DFS4", "DUP1", "ROOT1", "W1(do_traversal)", "LOAD1"],
     "assumptions": ["DFS1/DFS2 are the necessary shape of a correct DFS cycle check, not a proof of the if-and-only-if over all graphs"],
     "trusted": ["ast parser"],
 }
